@@ -24,7 +24,15 @@ REQS = [
     ("cfg-sequence-timeout", "kanata_parser::cfg::defcfg::CfgOptions", None, "sequence_timeout", "val", 1,
      "sequence-always-on re-activation with Kanata.sequence_timeout; tick_sequence_state"),
     ("chords-v2-min-idle", "kanata_parser::cfg::defcfg::CfgOptions", None, "chords_v2_min_idle", "val", 5, "ChordsV2::new: assert!(ticks_ignore_chord >= 5)"),
+    # feature "cmd" only: the run time takes the executable with args.next().expect(..)
+    ("cmd-nonempty", CA, "Cmd", "0", "len", 1, "cmd::run_cmd_in_thread: args.next().expect()"),
+    ("cmd-log-nonempty", CA, "CmdLog", "2", "len", 1, "cmd::run_cmd_in_thread: args.next().expect()"),
+    ("cmd-output-keys-nonempty", CA, "CmdOutputKeys", "0", "len", 1, "cmd::keys_for_cmd_output: args.next().expect()"),
+    ("clipboard-cmd-set-nonempty", CA, "ClipboardCmdSet", "0", "len", 1, "clipboard cmd: args.next().expect()"),
+    ("clipboard-save-cmd-set-nonempty", CA, "ClipboardSaveCmdSet", "1", "len", 1, "clipboard cmd: args.next().expect()"),
 ]
+# requirements whose producers exist only when a cargo feature is on: no producer = nothing to check
+FEATURE_ONLY = {"cmd-nonempty", "cmd-output-keys-nonempty", "clipboard-cmd-set-nonempty", "clipboard-save-cmd-set-nonempty"}
 
 
 # producers that copy an existing, already validated value of the same field
@@ -137,6 +145,8 @@ def run(prog):
     pc = PC(prog)
     for (rid, adt, variant, field, kind, mn, consumer) in REQS:
         ok, results = pc.check(adt, variant, field, kind, mn)
+        if rid in FEATURE_ONLY and len(results) == 1 and results[0][0] == "no producer found":
+            continue
         for (where, fn, okk, why) in results:
             if not okk and (rid, fn) in EXEMPT:
                 okk, why = True, "exempt: " + EXEMPT[(rid, fn)]
